@@ -205,6 +205,14 @@ class Interp:
                     return self.branch(truthy(r), "truth")
                 if owner is not None and not isinstance(owner, ClassInfo) and found is None:
                     break
+        if isinstance(v, VObj) and v.model is not None and not isinstance(v.cls, ClassInfo):
+            # environment model: truthiness through its trusted __bool__ / __len__ if it declares one
+            for dunder in ("__bool__", "__len__"):
+                k = f"model:{v.model.name}.{dunder}"
+                if k in self.reg.contracts:
+                    from .callspec import apply_contract
+                    r = apply_contract(self, self.reg.contracts[k], None, [v], {}, None)
+                    return self.branch(truthy(r), "truth")
         return self.branch(truthy(v), "truth")
 
     # ------------------------------------------------------------- name lookup
